@@ -197,6 +197,17 @@ example : contentAt ⟨.mid, .mid, (1, 1)⟩ ⟨2, 1, 1, 1, [[Tok.bg (1, 2, 3), 
     = contentAt ⟨.mid, .mid, (7, 9)⟩ ⟨2, 1, 1, 1, [[Tok.bg (1, 2, 3), Tok.glyph .blank, Tok.sgr0, Tok.glyph .blank, Tok.nul, Tok.nul]]⟩ 0 0 1 1 :=
   content_pure _ _ _ rfl rfl _ _ _ _
 
+/-- INTERLEAVING-INDEPENDENCE. `content` is a generator; urwid may pull rows of several requests on one canvas
+    alternately, so row `i` of a request is produced in whatever state the widget/canvas is in at that moment. In
+    the model that state is an argument: the `i`-th row of a request computed in ANY widget state (same alignments)
+    — in particular after any number of rows of other requests were pulled — is the `i`-th row of the request
+    answered alone. The model has no per-canvas scratch state for `content` to share between requests (the code
+    has none either); the harness ties this by pulling 2–3 `content()` generators of one canvas alternately. -/
+theorem content_row_pure (ws ws' : WidgetState) (cv : CanvasVal) (hh : ws.hAlign = ws'.hAlign) (hv : ws.vAlign = ws'.vAlign)
+    (tl tt c r : Int) (i : Nat) :
+    (contentAt ws cv tl tt c r).map (·[i]?) = (contentAt ws' cv tl tt c r).map (·[i]?) := by
+  rw [content_pure ws ws' cv hh hv]
+
 /-! ## graphics-based images -/
 
 /-- VERTICAL trimming selects exactly the corresponding lines (each with the same disguise) -/
